@@ -354,8 +354,15 @@ func newExec(kind string, lanes, capQ int) *exec {
 		e.ml = mline.NewMultiLine(pipe.WithSlotSize(lanes), pipe.WithQSize(capQ))
 		e.runFn, e.waitFn, e.loopName = e.ml.Run, func() { _ = e.ml.WaitStop(context.Background()) }, "mline.(*MultiLine).popLoop"
 	case "runner":
-		e.rq = async.NewRunnerQ(async.WithQSize(capQ), async.WithName("verif"))
-		e.runFn, e.waitFn, e.loopName = e.rq.Run, e.rq.WaitStop, "async.(*RunnerQ).popLoop"
+		if capQ%2 == 0 {
+			// with the optional caller-supplied wait group: the lane has terminated when WaitStop AND wg.Wait return
+			wg := &sync.WaitGroup{}
+			e.rq = async.NewRunnerQ(async.WithQSize(capQ), async.WithName("verif"), async.WithWaitGroup(wg))
+			e.runFn, e.waitFn, e.loopName = e.rq.Run, func() { e.rq.WaitStop(); wg.Wait() }, "async.(*RunnerQ).popLoop"
+		} else {
+			e.rq = async.NewRunnerQ(async.WithQSize(capQ), async.WithName("verif"))
+			e.runFn, e.waitFn, e.loopName = e.rq.Run, e.rq.WaitStop, "async.(*RunnerQ).popLoop"
+		}
 	case "pchan":
 		wg := &sync.WaitGroup{}
 		e.pc = async.NewProcChan(async.WithQSize(capQ), async.WithWaitGroup(wg), async.WithName("verif"))
@@ -841,6 +848,8 @@ type hx struct {
 
 func newHx(kind string, lanes int) *hx { return newHxCap(kind, lanes, 64) }
 
+var hxCount int
+
 func newHxCap(kind string, lanes, chanCap int) *hx {
 	h := &hx{kind: kind, variant: -1}
 	if v, ok := runnerVariants[kind]; ok {
@@ -863,6 +872,11 @@ func newHxCap(kind string, lanes, chanCap int) *hx {
 	case "runner":
 		rq := async.NewRunnerQ(async.WithQSize(0))
 		h.run, h.stop, h.wait = rq.Run, rq.Stop, rq.WaitStop
+		if hxCount++; hxCount%2 == 0 {
+			wg := &sync.WaitGroup{} // the optional caller-supplied wait group must be released too
+			rq = async.NewRunnerQ(async.WithQSize(0), async.WithWaitGroup(wg))
+			h.run, h.stop, h.wait = rq.Run, rq.Stop, func() { rq.WaitStop(); wg.Wait() }
+		}
 		h.call = func(ctx context.Context, id, hash int, fn func(context.Context, interface{}, bool) (interface{}, error)) (interface{}, error) {
 			v := h.variant
 			if v < 0 {
